@@ -4,11 +4,12 @@
 set -e
 D=${1:-/verif/certs}
 mkdir -p $D && cd $D
-rm -f *.pem *.srl *.cnf *.csr
+rm -f *.srl *.cnf *.csr   # existing certificates are kept: only missing ones are minted
 ROLE_OID=1.3.6.1.4.1.50316.802.1
 key() { openssl genpkey -algorithm EC -pkeyopt ec_paramgen_curve:P-256 -out $1 2>/dev/null; }
 # two authorities
 for ca in ca1 ca2; do
+  [ -f ${ca}_cert.pem ] && continue
   key ${ca}_key.pem
   openssl req -x509 -new -key ${ca}_key.pem -subj "/O=verif/CN=$ca" -days 18000 \
     -addext "basicConstraints=critical,CA:TRUE" -addext "keyUsage=critical,keyCertSign,cRLSign" -out ${ca}_cert.pem
@@ -16,6 +17,7 @@ done
 # leaf: name ca subjectCN san ext-lines startdate enddate
 leaf() {
   name=$1; ca=$2; cn=$3; san=$4; ext=$5; start=$6; end=$7
+  [ -f ${name}_cert.pem ] && return 0
   key ${name}_key.pem
   openssl req -new -key ${name}_key.pem -subj "/O=verif/CN=$cn" -out ${name}.csr
   {
@@ -38,6 +40,7 @@ leaf srv_cnonly    ca1 test.com  ""            ""                 $OK_START $OK_
 leaf srv_wrongca   ca2 test.com  DNS:test.com  ""                 $OK_START $OK_END
 leaf srv_expired   ca1 test.com  DNS:test.com  ""                 20200101000000Z 20210101000000Z
 leaf srv_future    ca1 test.com  DNS:test.com  ""                 20690101000000Z 20700101000000Z
+leaf srv_ip        ca1 test.com  DNS:test.com,IP:127.0.0.1 ""     $OK_START $OK_END
 # clients
 leaf cli_operator  ca1 client    ""            "$(role operator)" $OK_START $OK_END
 leaf cli_viewer    ca1 client    ""            "$(role viewer)"   $OK_START $OK_END
@@ -48,6 +51,7 @@ leaf cli_future    ca1 client    ""            "$(role operator)" 20690101000000
 # self-signed entities
 ss() {
   name=$1; start=$2; end=$3; ext=$4
+  [ -f ${name}_cert.pem ] && return 0
   key ${name}_key.pem
   if [ -n "$ext" ]; then
     openssl req -x509 -new -key ${name}_key.pem -subj "/O=verif/CN=entity" -not_before $start -not_after $end \
